@@ -520,3 +520,99 @@ func execC13(c *Ctx) {
 	c.Res.Sample = map[string]any{"mode": mode, "inputs": injected, "enc": p.Cfg.Encrypt, "label": p.Cfg.Label, "verify_in": p.Cfg.VerifyIncoming, "skip_label_check": skip}
 	l.finish()
 }
+
+// ---------------------------------------------------------------- C13C: hostile traffic injected into a live, encrypted, healthy cluster
+
+func init() {
+	register(&Scenario{Name: "C13C", Gen: genC13C, Exec: execC13C})
+}
+
+func genC13C(c *Ctx) *Plan {
+	p := genC04(c)
+	r := c.R
+	p.Cfg.Encrypt = r.pick(16, 24, 32)
+	p.Cfg.VerifyIncoming = true
+	p.Cfg.VerifyOutgoing = true
+	// keep only creates and joins plus a few user ops; no leaves (the C04 invariants then say: nothing changes)
+	kept := p.Ops[:0]
+	for _, o := range p.Ops {
+		if o.Kind == "leave" || o.Kind == "slowdelegate" {
+			continue
+		}
+		kept = append(kept, o)
+	}
+	p.Ops = kept
+	p.P["inject_every_us"] = int64(r.pick(500, 5000, 50000))
+	return p
+}
+
+func execC13C(c *Ctx) {
+	p := c.Plan
+	mon := &c04mon{}
+	cx := startClusterRun(c, mon, &healthMon{}, newEventMon(), newSelfMon())
+	att := cx.cl.net.newEndpoint(85, "att", ip4(10, 0, 9, 8), 7946)
+	att.yieldOff = true
+	r := newRng(hash64(c.Seed, 0xc13c))
+	var captured [][]byte
+	cx.cl.net.tapFn = func(tr *tapRec) {
+		if !tr.Stream && tr.From != "att" && len(captured) < 400 {
+			captured = append(captured, tr.Buf)
+		}
+	}
+	end := time.Duration(p.param("end", int64(30*time.Second)))
+	every := time.Duration(p.param("inject_every_us", 5000)) * time.Microsecond
+	injected := int64(0)
+	var seq uint64
+	var tick func()
+	tick = func() {
+		if c.Sim.Now() >= end-2*time.Second {
+			return
+		}
+		nodes := cx.runningSet()
+		if len(nodes) > 0 {
+			tgt := nodes[r.intn(len(nodes))]
+			var buf []byte
+			switch {
+			case len(captured) > 0 && r.chance(0.7):
+				g := captured[r.intn(len(captured))]
+				buf = append([]byte(nil), g...)
+				switch r.intn(4) {
+				case 0:
+					buf[r.intn(len(buf))] ^= byte(1 << r.intn(8))
+				case 1:
+					buf = buf[:r.intn(len(buf))]
+				case 2:
+					buf[r.intn(len(buf))] = byte(r.u64())
+					buf[r.intn(len(buf))] = byte(r.u64())
+				case 3:
+					o := captured[r.intn(len(captured))]
+					buf = append(buf[:r.intn(len(buf))], o[r.intn(len(o)):]...)
+				}
+				same := false
+				for _, g2 := range captured {
+					if string(g2) == string(buf) {
+						same = true // an unmodified genuine packet would be a replay, not hostile bytes
+					}
+				}
+				if same {
+					buf = nil
+				}
+			default:
+				buf = r.bytes(r.pick(1, 5, 30, 200, 1500))
+			}
+			if len(buf) > 0 {
+				src := &net.UDPAddr{IP: nodes[r.intn(len(nodes))].ip, Port: 7946} // spoofed source
+				tgt.ep.deliverPacket(buf, src)
+				injected++
+			}
+		}
+		seq++
+		c.Sim.After(every, 1<<59, seq, "inject", tick)
+	}
+	c.Sim.After(2*time.Second, 1<<59, 0, "inject", tick)
+	c.Sim.RunUntil(end, func() bool { return c.Failed() })
+	c.Res.Nontrivial = injected > 50
+	c.Stat("packets_injected", injected)
+	c.Res.Sample = map[string]any{"n": p.N, "injected": injected, "enc": p.Cfg.Encrypt}
+	cx.finish()
+}
